@@ -746,7 +746,7 @@ func c15R6(a *A) {
 	// indifference to trailing optional metadata: nothing is read, and no length is compared, after the NULL-ability bitmap
 	var nbm *ssa.Call
 	instrs(tmf, func(in ssa.Instruction) {
-		if c, ok := in.(*ssa.Call); ok && res.Exec[c.Block()] && c.Common().StaticCallee() != nil && c.Common().StaticCallee().Name() == "newBitmap" {
+		if c, ok := in.(*ssa.Call); ok && res.Exec[c.Block()] && c.Common().StaticCallee() != nil && roleName(c.Common().StaticCallee()) == "newBitmap" {
 			nbm = c
 		}
 	})
